@@ -8,6 +8,15 @@ let aout_s = function AT -> "T" | AFn -> "F" | AFc -> "Fcycle" | AEc -> "Econd" 
 let impl_s = function 0 -> "T" | 1 -> "F" | 2 -> "Fcycle" | 3 -> "Econd" | 4 -> "Edepth" | 5 -> "Eother" | 6 -> "timeout" | 7 -> "invalid" | _ -> "?"
 let impl_aout = function 0 -> Some AT | 1 -> Some AFn | 2 -> Some AFc | 3 -> Some AEc | 4 -> Some AEd | 5 -> Some AEo | _ -> None
 
+(* Cross-check of extraction (thorough tier): with ORACLE_DUMP=<file> every model value computed here
+   (reference value, outcome set as a bit mask, trigger flags, stratified, converged) is appended to
+   that file, and bin/coqreplay_c01.py recomputes the same numbers inside Coq with vm_compute. *)
+let dump_chan = match Sys.getenv_opt "ORACLE_DUMP" with
+  | Some p when p <> "" -> Some (open_out_gen [Open_append; Open_creat] 0o644 p)
+  | _ -> None
+let aout_bit = function AT -> 1 | AFn -> 2 | AFc -> 4 | AEc -> 8 | AEd -> 16 | AEo -> 32 | AFuel -> 64
+let b3_code = function T -> 0 | F -> 1 | E -> 2
+
 let f _id vs =
   match vs with
   | [I "1"; model; conds; tuples; atoms; maxdepth; subjects] ->
@@ -35,6 +44,13 @@ let f _id vs =
             if impl <> 7 then begin
               let spec = atomval subj v o rel in
               let (oset, tr) = check_top m cs store subj pathx md fuel o rel in
+              (match dump_chan with
+               | Some ch ->
+                 Printf.fprintf ch "%s %d %d %d %d %d %d\n" _id (b3_code spec)
+                   (List.fold_left (fun acc a -> acc lor aout_bit a) 0 oset)
+                   ((if tr.tr_excl_sub_cycle then 1 else 0) + (if tr.tr_swallow then 2 else 0))
+                   (if strat then 1 else 0) (if conv then 1 else 0) impl
+               | None -> ());
               let where = Printf.sprintf "%s#r%d@%s" (obj_s o) (int_of_n rel) (subj_s subj) in
               let in_model = match impl_aout impl with Some a -> List.mem a oset | None -> false in
               let fuel_out = List.mem AFuel oset in
@@ -74,4 +90,4 @@ let f _id vs =
      | [], [], [] -> "OK")
   | _ -> "DIFF malformed-record"
 
-let () = run_oracle f
+let () = run_oracle f; (match dump_chan with Some ch -> close_out ch | None -> ())
